@@ -2,7 +2,7 @@
 //vp:pkg ./tsdb/wlog
 //vp:roots ./util/compression io
 //vp:budget steps=4000000
-//vp:bounds necessary condition (a) of durability - no acknowledgement without hand-off to the OS: WL.Log / log / flushPage over an in-memory segment file whose every Write may fail (symbolic fault flag per call, short count on failure); page pre-filled so that rem in {0,6,7,9,20} bytes remain, then a batch of two records of n in {0,5,13} and 2 arbitrary bytes
+//vp:bounds necessary condition (a) of durability - no acknowledgement without hand-off to the OS: WL.Log / log / flushPage over an in-memory segment file whose every Write may fail (symbolic fault flag per call, short count on failure); page pre-filled so that rem in {0,6,7,9,20} bytes remain, then a batch of two records of n in {0,5,13} and 2 arbitrary bytes; the thorough tier widens the sets of page remainders, record sizes and cut offsets (see the harness)
 //vp:assume a crash loses exactly what was not yet passed to the file's Write; fsync, rename protocols, replay and repair (Head.Init, WL.Repair) are outside: the property as a whole is not decided
 package wlog
 
@@ -40,8 +40,12 @@ func (f *vpXFaultyFile) Close() error             { return nil }
 // If Log returns nil, no write to the segment file failed and every byte of every fragment of the
 // batch (header, payload, page padding) has been passed to the file; a failed write is reported.
 func vpH_C03_log_handoff() {
-	rem := []int{0, 6, 7, 9, 20}[vpShape("rem", 0, 4)]
-	n := []int{0, 5, 13}[vpShape("n", 0, 2)]
+	rems, ns := []int{0, 6, 7, 9, 20}, []int{0, 5, 13}
+	if vpThorough() {
+		rems, ns = []int{0, 1, 3, 6, 7, 8, 9, 10, 12, 20, 33}, []int{0, 1, 2, 5, 6, 13, 14, 26}
+	}
+	rem := rems[vpShape("rem", 0, len(rems)-1)]
+	n := ns[vpShape("n", 0, len(ns)-1)]
 	file := &vpXFaultyFile{}
 	w := &WL{segmentSize: 4 * pageSize, page: &page{}, segment: &Segment{SegmentFile: file}, compress: compression.None}
 	w.metrics = newWLMetrics(w, nil)
